@@ -398,7 +398,26 @@ func wrapErrorsLastRule(p *Prog, r *Report) {
 			}
 			return true
 		})
-		if strings.HasPrefix(s, "append(errPath, "+k[1]) {
+		okShape := strings.HasPrefix(s, "append(errPath, "+k[1])
+		if !okShape {
+			// data-flow form: every return is append(receiver, e) — possibly through a private one-line helper —
+			// with e of this constructor's element type
+			if sf := p.SSAFunc(f); sf != nil {
+				nret, good := 0, 0
+				allInstrs(sf, false, func(in ssa.Instruction) {
+					if ret, ok := in.(*ssa.Return); ok && len(ret.Results) == 1 {
+						nret++
+						if base, elem, ok := appendOneShape(ret.Results[0], 0); ok && elemTypeName(elem) == k[1] {
+							if _, isPrm := base.(*ssa.Parameter); isPrm {
+								good++
+							}
+						}
+					}
+				})
+				okShape = nret > 0 && nret == good
+			}
+		}
+		if okShape {
 			r.OK(site, p.PosStr(f.Decl.Pos()), "append(path, "+k[1]+"…): adds its element at the end")
 		} else {
 			r.Bad(site, p.PosStr(f.Decl.Pos()), "does not append a "+k[1]+" at the end of the path")
